@@ -10,6 +10,14 @@ if [ -n "$(git -C /repo status --short)" ]; then echo "/repo is not clean" >&2; 
 for d in seeded/C*; do
   id=$(basename $d)
   prop=$(python3 -c "import json;m=json.load(open('$d/meta.json'));print(m.get('detected_by_check_of_property',m['property']))")
+  if python3 -c "import json,sys;sys.exit(0 if 'overtaken_by_repair' in json.load(open('$d/meta.json')) else 1)"; then
+    # the property holds again with this change applied (see its meta.json):
+    # the check must say OK
+    git -C /repo apply /verif/$d/patch.diff 2>/dev/null
+    res=$(./check $prop --tier quick 2>&1 | grep -E "^(VIOLATION|OK|MACHINERY)" | head -1 | cut -c1-80)
+    git -C /repo checkout -- .
+    echo "$id $prop overtaken-by-a-repair ($res)" >> $out; continue
+  fi
   if ! git -C /repo apply /verif/$d/patch.diff 2>/dev/null; then echo "$id $prop DOES-NOT-APPLY" >> $out; continue; fi
   res=$(./check $prop --tier quick 2>&1 | grep -E "^(VIOLATION|OK|MACHINERY)" | head -1 | cut -c1-80)
   git -C /repo checkout -- .
